@@ -2,7 +2,7 @@
    Model: Model/Router.v (NewRouters = build, findVirtualHost = find_vhost_with, MatchRoute = match_route_with).
    Strings are ASCII; regular / DSL expressions are black boxes whose truth value comes with the request. *)
 From Coq Require Import List String Permutation.
-From MV Require Import Model.Router Proofs.Router.
+From MV Require Import Gen.RouterSrc Model.Router Proofs.Router.
 Import ListNotations.
 Local Open Scope string_scope.
 
@@ -71,13 +71,23 @@ Theorem c04_domain_case_insensitive : forall c c', Forall2 same_modulo_case c c'
 Proof. exact build_domain_case_insensitive. Qed.
 Print Assumptions c04_domain_case_insensitive.
 
-(* code as it is: an unset, empty or malformed Host selects the default when the default is the only domain configured,
-   and no virtual host otherwise *)
-Theorem c04_vhost_unusable_host : forall t wl h,
-  match h with None => True | Some hh => host_parts hh = None end ->
-  find_vhost_with wl t h = if only_default t then t_default t else None.
+(* what the translator read from routers_impl.go findVirtualHost: the Host is lower-cased once, and a lookup that gave no
+   index falls back to the default virtual host before giving up *)
+Theorem c04_router_source_shape : RouterSrc_translator_ok = true /\ host_fallback_default = true.
+Proof. split; exact (eq_refl _). Qed.
+Print Assumptions c04_router_source_shape.
+
+(* an unset, empty or malformed Host: no exact or wildcard domain can apply, the default virtual host is used *)
+Theorem c04_vhost_unusable_host : forall t wl h, host_parts_opt h = None -> find_vhost_with wl t h = t_default t.
 Proof. exact vhost_unusable_host. Qed.
 Print Assumptions c04_vhost_unusable_host.
+
+(* the precedence for EVERY Host value (unset, empty and malformed ones included): spec_vhost_opt is the maximal
+   candidate for a usable Host and the configuration's default entry otherwise *)
+Theorem c04_vhost_precedence_any_host : forall c t wl h,
+  build c = Ok t -> wl_ok t wl -> find_vhost_with wl t h = spec_vhost_opt c h.
+Proof. exact vhost_precedence_any. Qed.
+Print Assumptions c04_vhost_precedence_any_host.
 
 (* within the virtual host: the first route in configuration order all of whose matchers hold; None iff none does *)
 Theorem c04_first_match : forall rs rq,
@@ -126,7 +136,8 @@ Example c04_example :
     spec_vhost c04_ex_config "x.a.com:80" = Some 2 /\
     spec_vhost c04_ex_config "x.b.com:81" = Some 3 /\
     spec_vhost c04_ex_config "z.org" = Some 4 /\
-    find_vhost t (Some "X.a.com:80") = Some 2.
+    find_vhost t (Some "X.a.com:80") = Some 2 /\
+    host_parts_opt (Some "a:b:c") = None /\ find_vhost t (Some "a:b:c") = Some 4 /\ find_vhost t None = Some 4.
 Proof.
   eexists. split; [vm_compute; reflexivity|]. split; [apply wild_for_ok|].
   repeat split; vm_compute; reflexivity.
